@@ -30,6 +30,7 @@ type Frame struct {
 	loops  map[*ssa.BasicBlock]bool
 	isTop  bool
 	walkInv *walkCtx
+	parent *Frame
 }
 
 type deferred struct {
@@ -87,6 +88,7 @@ type Exec struct {
 	lenHint    map[string]int64
 	callerSeqs map[string]string
 	topLets    map[string]SV
+	steps      int
 }
 
 type ghostInfo struct {
@@ -426,6 +428,12 @@ func (x *Exec) storeTo(st *State, p Value, v Value) {
 
 func (x *Exec) updPath(st *State, base Value, path []PathElem, v Value) Value {
 	if len(path) == 0 {
+		switch v.(type) {
+		case ByteView, SliceRef:
+			if _, isTV := base.(TV); isTV {
+				return x.asTV(st, v)
+			}
+		}
 		return v
 	}
 	pe := path[0]
@@ -434,15 +442,11 @@ func (x *Exec) updPath(st *State, base Value, path []PathElem, v Value) Value {
 		if pe.IsIndex {
 			el := TV{T: simpSelect(app("seq.arr", b.T), pe.Index), Ty: elemType(b.Ty)}
 			nv := x.updPath(st, el, path[1:], v)
-			return TV{T: app("mkseq", app("store", seqArr(b.T), pe.Index, term(nv)), seqLen(b.T)), Ty: b.Ty}
+			return TV{T: app("mkseq", app("store", seqArr(b.T), pe.Index, x.asTV(st, nv).T), seqLen(b.T)), Ty: b.Ty}
 		}
 		inner := x.fieldOf(st, b, pe.Field)
 		nv := x.updPath(st, inner, path[1:], v)
-		nt, ok := nv.(TV)
-		if !ok {
-			x.fail("store of non-term into struct field")
-			return base
-		}
+		nt := x.asTV(st, nv)
 		return TV{T: x.enc.Upd(b.Ty, pe.Field, b.T, nt.T), Ty: b.Ty}
 	case TupV:
 		nb := append(TupV(nil), b...)
@@ -559,7 +563,7 @@ func (x *Exec) sentinelID(name string) int {
 
 // ---------------------------------------------------------------------------------------
 
-func (x *Exec) execFunc(st *State, fn *ssa.Function, args []Value, free []Value, depth int, isTop bool) []Outcome {
+func (x *Exec) execFunc(st *State, fn *ssa.Function, args []Value, free []Value, depth int, isTop bool, parent ...*Frame) []Outcome {
 	if fn.Blocks == nil {
 		x.fail("no body for %s", fn.String())
 		return nil
@@ -569,6 +573,9 @@ func (x *Exec) execFunc(st *State, fn *ssa.Function, args []Value, free []Value,
 		return nil
 	}
 	fr := &Frame{fn: fn, env: map[ssa.Value]Value{}, names: map[string]Value{}, depth: depth, loops: map[*ssa.BasicBlock]bool{}, isTop: isTop}
+	if len(parent) > 0 {
+		fr.parent = parent[0]
+	}
 	for i, p := range fn.Params {
 		fr.env[p] = args[i]
 		fr.names[p.Name()] = args[i]
@@ -636,7 +643,7 @@ func (x *Exec) execFrom(st *State, fr *Frame, blk *ssa.BasicBlock, idx int, prev
 		in := instrs[i]
 		switch ins := in.(type) {
 		case *ssa.DebugRef:
-			if id, ok := ins.Expr.(*ast.Ident); ok {
+			if id, ok := ins.Expr.(*ast.Ident); ok && x.L.IsVarIdent(id) {
 				if v, ok := fr.env[ins.X]; ok {
 					fr.names[id.Name] = v
 				} else if _, isc := ins.X.(*ssa.Const); isc {
@@ -762,8 +769,11 @@ func shortFile(f string) string {
 }
 
 func (x *Exec) finish(st *State, fr *Frame, vals []Value) []Outcome {
-	x.paths++
-	if x.paths > x.maxPaths {
+	if fr.isTop {
+		x.paths++
+	}
+	x.steps++
+	if x.paths > x.maxPaths || x.steps > 50*x.maxPaths {
 		x.fail("path cap %d exceeded in %s", x.maxPaths, x.top.Name())
 		return nil
 	}
@@ -1180,6 +1190,12 @@ func (x *Exec) wrapAdd(t string, ty types.Type) string {
 	if lo == "" {
 		return t
 	}
+	if hi == two64 {
+		return app("wrap.u64", t)
+	}
+	if hi == two63 {
+		return app("wrap.i64", t)
+	}
 	if lo == "0" {
 		return ite(app("<", t, "0"), app("+", t, hi), ite(app(">=", t, hi), app("-", t, hi), t))
 	}
@@ -1221,7 +1237,7 @@ func (x *Exec) equal(st *State, a, b Value, ty types.Type) string {
 			case s == "Bytes":
 				return app("bnil", v.T)
 			case strings.HasPrefix(s, "(Opt"):
-				return app("(_ is None)", v.T)
+				return isNoneT(v.T, s)
 			case strings.HasPrefix(s, "(GSeq"):
 				x.enc.DeclFun("seqnil."+sanitize(s), []string{s}, "Bool")
 				return app("seqnil."+sanitize(s), v.T)
@@ -1467,7 +1483,7 @@ func (x *Exec) lookup(st *State, fr *Frame, ins *ssa.Lookup) {
 		return
 	}
 	sel := app("select", arr, k)
-	present := app("(_ is Some)", sel)
+	present := isSomeT(sel, "(Opt "+x.enc.Sort(mt.Elem())+")")
 	v := TV{T: ite(present, app("val", sel), x.enc.Zero(mt.Elem())), Ty: mt.Elem()}
 	if ins.CommaOk {
 		fr.env[ins] = TupV{v, TV{T: present, Ty: types.Typ[types.Bool]}}
